@@ -11,3 +11,4 @@ import Proofs.C04Cmp
 import Proofs.C04Date
 import Proofs.C04Spec17
 import Proofs.C04Order
+import Proofs.C04Fix2
